@@ -132,7 +132,16 @@ pub(super) fn nested_check(outer: usize, inner: &[usize], bad: bool) {
         vk_must_not_return!();
         return;
     }
+    // the same construction from CLONES of live arrays (their buffers are shared, so they are copied): C12
+    let clones: Vec<Array> = parts.iter().map(|x| x.clone()).collect();
+    let from_clones = Array::from(clones);
     let a = Array::from(parts);
+    assert!(from_clones == a || all.iter().any(|v| v.is_nan()), "C12/C16 nested construction from clones of live arrays gives the same array");
+    let mut q = 0;
+    while q < outer * n {
+        assert!(from_clones.values[q].to_bits() == all[q].to_bits(), "C12/C16 nested construction from clones: row-major concatenation");
+        q += 1;
+    }
     assert!(a.dimensions.len() == inner.len() + 1 && a.dimensions[0] == outer && dims_eq(&a.dimensions[1..], inner),
             "C16 nested arrays: dimensions [count, inner...]");
     assert!(a.values.len() == outer * n, "C16 nested arrays: element count");
